@@ -74,6 +74,7 @@ TARGETS = [
     ("chipfiring/CFConfig.py", "CFConfigMoves", "_is_comparable_to"), ("chipfiring/CFConfig.py", "CFConfigMoves", "__eq__"), ("chipfiring/CFConfig.py", "CFConfigMoves", "__ge__"), ("chipfiring/CFConfig.py", "CFConfigMoves", "__le__"),
     ("chipfiring/CFConfig.py", "CFConfigMoves", "set_fire"), ("chipfiring/CFConfig.py", "CFConfigMoves", "lending_move"), ("chipfiring/CFConfig.py", "CFConfigMoves", "borrowing_move"),
     ("chipfiring/CFConfig.py", "CFConfigMoves", "is_legal_set_firing"), ("chipfiring/CFConfig.py", "CFConfigMoves", "is_superstable"), ("chipfiring/CFConfig.py", "CFConfigMoves", "__lt__"), ("chipfiring/CFConfig.py", "CFConfigMoves", "__gt__"),
+    ("chipfiring/CFConfig.py", "CFConfigMoves", "get_q_vertex_name"), ("chipfiring/CFConfig.py", "CFConfigMoves", "get_v_tilde_names"), ("chipfiring/CFConfig.py", "CFConfigMoves", "get_config_degrees_as_dict"),
 ]
 class Unsupported(Exception): pass
 def bad(node, why=""): raise Unsupported("%s at line %s: %s" % (type(node).__name__, getattr(node, "lineno", "?"), why))
@@ -213,6 +214,17 @@ class Fn:
             self.env[v] = "key"; n0 = len(self.pending); val, tv = self.expr(e.value); del self.env[v]
             if tv != "Z" or len(self.pending) != n0: bad(e, "dict comprehension value")
             self.uses_order = True; return "(fold_left (fun d_ %s => d_set %s %s d_) (set_order %s) [])" % (v, v, val, src), "dictZ"
+        if isinstance(e, ast.DictComp) and len(e.generators) == 1 and not e.generators[0].ifs and isinstance(e.generators[0].target, ast.Name) and isinstance(e.key, ast.Attribute) \
+                and e.key.attr == "name" and isinstance(e.key.value, ast.Name) and e.key.value.id == e.generators[0].target.id and e.key.value.id not in self.env and not self.assigned(self.node.body):
+            # {v.name: <value that may raise> for v in <set>} in a method that writes nothing: a loop over the set in iteration order that stops at the first exception
+            src, ts = self.expr(e.generators[0].iter); v = e.key.value.id
+            if ts != "set": bad(e, "dict comprehension over " + ts)
+            outer = self.pending; self.pending = []; self.env[v] = "key"; val, tv = self.expr(e.value); del self.env[v]
+            if tv != "Z": bad(e, "dict comprehension value")
+            inner = self.wrap("PyOk (d_set %s %s d_)" % (v, val)).replace("EXN_", "PyExn tt"); self.pending = outer
+            t = self.fresh(); self.uses_order = True; self.can_raise = True
+            self.pending.append((t, "CALL_ (fold_left (fun acc_ %s => match acc_ with PyExn e_ => PyExn e_ | PyOk d_ =>\n  %s end) (set_order %s) (PyOk (@nil (nat * Z))))" % (v, inner, src)))
+            return t, "dictZ"
         if isinstance(e, ast.ListComp) and len(e.generators) == 1 and not e.generators[0].ifs and isinstance(e.generators[0].target, ast.Tuple) and len(e.generators[0].target.elts) == 2 \
                 and all(isinstance(x, ast.Name) for x in e.generators[0].target.elts):
             # [name for name, _ in pairs]   /   [(v.name, f(deg)) for v, deg in d.items()]
